@@ -9,8 +9,10 @@ package simrun
 
 import (
 	"context"
+	"encoding/json"
 	"fmt"
 	"os"
+	"os/exec"
 	"path/filepath"
 	"regexp"
 	"strconv"
@@ -66,6 +68,9 @@ type Job struct {
 	Done    bool
 	// what it wrote
 	Outs *jsonx.Obj
+	// Started: _log has been written; Failed: how it was made to fail
+	Started bool
+	Failed  string
 }
 
 func (j *Job) String() string {
@@ -312,6 +317,9 @@ func (s *Sim) journal(j *Job, name string) error {
 // Start marks the job as running the way the job monitor does (_log and
 // its journal entry).
 func (s *Sim) Start(j *Job) error {
+	j.Started = true
+	// the job manager removes the queue marker once the process is started
+	os.Remove(filepath.Join(j.MdPath, "_queued_locally"))
 	f, err := os.OpenFile(filepath.Join(j.MdPath, "_log"), os.O_WRONLY|os.O_CREATE|os.O_APPEND, 0o644)
 	if err != nil {
 		return err
@@ -431,3 +439,124 @@ func (s *Sim) Close() {
 		s.PS.Unlock()
 	}
 }
+
+// ---- interruption and faults -------------------------------------------------
+
+// DeadPid returns the pid of a process that has already exited.
+func DeadPid() int {
+	cmd := exec.Command("/bin/true")
+	if err := cmd.Start(); err != nil {
+		return 1 << 22
+	}
+	pid := cmd.Process.Pid
+	cmd.Wait()
+	return pid
+}
+
+// StartWithPid marks the job as running the way the job monitor does: the
+// pid is recorded in _jobinfo, then _log appears.
+func (s *Sim) StartWithPid(j *Job, pid int) error {
+	p := filepath.Join(j.MdPath, "_jobinfo")
+	info := map[string]any{}
+	if b, err := os.ReadFile(p); err == nil {
+		json.Unmarshal(b, &info)
+	}
+	info["pid"] = pid
+	b, _ := json.Marshal(info)
+	if err := os.WriteFile(p, b, 0o644); err != nil {
+		return err
+	}
+	j.Started = true
+	return s.Start(j)
+}
+
+// Fail makes the job end the way a failing job does.
+//
+//	errors        _errors holds a message (what mrjob writes for a non-zero
+//	              exit, a signal, or an error reported by the stage code)
+//	assert        _assert holds a message
+//	invalid-outs  _outs is cut off in the middle, _complete is written
+//	raw:<json>    _outs (or _stage_defs for a split) holds the given text,
+//	              _complete is written
+func (s *Sim) Fail(j *Job, kind, msg string) error {
+	if !j.Started {
+		if err := s.Start(j); err != nil {
+			return err
+		}
+	}
+	write := func(name, content string) error {
+		if err := os.WriteFile(filepath.Join(j.MdPath, "_"+name), []byte(content), 0o644); err != nil {
+			return err
+		}
+		return s.journal(j, name)
+	}
+	outsName := "outs"
+	if j.Phase == "split" {
+		outsName = "stage_defs"
+	}
+	j.Failed = kind
+	switch {
+	case kind == "errors":
+		return write("errors", msg)
+	case kind == "assert":
+		return write("assert", msg)
+	case kind == "invalid-outs":
+		outs, err := s.Compute(j)
+		if err != nil {
+			return err
+		}
+		b := jsonx.Marshal(outs)
+		if err := os.WriteFile(filepath.Join(j.MdPath, "_"+outsName), b[:len(b)/2], 0o644); err != nil {
+			return err
+		}
+		return write("complete", "t")
+	case strings.HasPrefix(kind, "raw:"):
+		if err := os.WriteFile(filepath.Join(j.MdPath, "_"+outsName), []byte(strings.TrimPrefix(kind, "raw:")), 0o644); err != nil {
+			return err
+		}
+		return write("complete", "t")
+	}
+	return fmt.Errorf("unknown failure kind %q", kind)
+}
+
+// Reattach does what a restarted mrp does on an existing pipestance
+// directory: a new Pipestance object is built from the same invocation,
+// failed stages are reset and local jobs that are queued or whose process is
+// gone are restarted.  The old Sim must not be used afterwards.
+func Reattach(old *Sim) (*Sim, error) {
+	s := &Sim{Prog: old.Prog, Src: old.Src, Dir: old.Dir, Psid: old.Psid, MroPath: old.MroPath, Opts: old.Opts}
+	s.clock = old.clock
+	if err := s.newRuntime(); err != nil {
+		return nil, err
+	}
+	ctx := context.Background()
+	ps, err := s.rt.ReattachToPipestance(s.Psid, s.Dir, s.Src, s.MroPath, []string{filepath.Dir(s.MroPath)}, "verif", nil, true, false, ctx)
+	if err != nil {
+		return nil, fmt.Errorf("reattach: %w", err)
+	}
+	s.PS = ps
+	ps.LoadMetadata(ctx)
+	if err := ps.Reset(); err != nil {
+		return nil, fmt.Errorf("reset: %w", err)
+	}
+	if err := ps.RestartLocalJobs("local"); err != nil {
+		return nil, fmt.Errorf("restart local jobs: %w", err)
+	}
+	return s, nil
+}
+
+// RemoveLock removes the pipestance lock the way an operator does after mrp
+// was killed.
+func (s *Sim) RemoveLock() error {
+	return os.Remove(filepath.Join(s.Dir, "_lock"))
+}
+
+// Locked: does the lock file exist?
+func (s *Sim) Locked() bool {
+	_, err := os.Stat(filepath.Join(s.Dir, "_lock"))
+	return err == nil
+}
+
+// Identity names a job independently of the attempt: call path, fork,
+// phase and chunk index.
+func (j *Job) Identity() string { return j.String() }
